@@ -474,17 +474,24 @@ def fstOps (d : Denotation) : List LOp :=
 /-- FST has no delta cycles: one value per signal and time, the last one -/
 def fstChanges (l : List (Nat × Value)) : List (Nat × Value) := canon (lastPerStep l)
 
-def renderFst (d : Denotation) (div : Nat) : Option String :=
-  (treeS (fstOps d) (fun i => showChanges (fstChanges (d.changes.getD i [])))).map fun t =>
-    t ++ "|tt=" ++ natList (d.times.map (· / div)) ++ "|ts=1:" ++ (if div = 1 then "FemtoSeconds" else "PicoSeconds")
+/-- timescale of a file whose tick is 10^(e+15) fs: 1 / 10 / 100 of the largest unit that fits -/
+def tsText (e : Int) : String :=
+  let k := (e + 15).toNat
+  s!"{10 ^ (k % 3)}:" ++ (["FemtoSeconds", "PicoSeconds", "NanoSeconds", "MicroSeconds", "MilliSeconds", "Seconds"].getD (k / 3) "?")
 
-def specFst (design unit : String) : String :=
-  match parseDesign design with
-  | none => "-"
-  | some (items, w) =>
-    match (denote items w).bind (fun d => renderFst d (if unit = "fs" then 1 else 1000)) with
+def renderFst (d : Denotation) (e : Int) : Option String :=
+  let div := 10 ^ (e + 15).toNat
+  (treeS (fstOps d) (fun i => showChanges (fstChanges (d.changes.getD i [])))).map fun t =>
+    t ++ "|tt=" ++ natList (d.times.map (· / div)) ++ "|ts=" ++ tsText e
+
+def specFst (design exp : String) : String :=
+  match parseDesign design, exp.toInt? with
+  | some (items, w), some e =>
+    if e < -15 ∨ e > 0 then "-" else
+    match (denote items w).bind (fun d => renderFst d e) with
     | none => "-"
     | some s => s
+  | _, _ => "-"
 
 /-- the observation of a design's denotation -/
 def observe (d : Denotation) : Option String :=
